@@ -6,6 +6,7 @@ mod driver;
 mod entropy;
 mod json;
 mod model;
+mod mutate;
 mod observe;
 mod props;
 mod rng;
